@@ -38,7 +38,7 @@ fn bytes_eq(a: &[u8], b: &[u8]) -> bool {
 }
 
 /// Capacity of the model containers.  Exceeding it is a modelling bound, reported by a panic.
-pub const CAP: usize = 3;
+pub const CAP: usize = 2;
 
 /// Fixed-capacity association list.  Entries are boxed and stored in an array so that
 /// every loop over the container has the constant bound `CAP` and an empty slot is a
@@ -51,7 +51,7 @@ pub struct VecMap<K, V> {
 impl<K, V> Default for VecMap<K, V> {
     fn default() -> Self {
         VecMap {
-            entries: [None, None, None],
+            entries: [None, None],
         }
     }
 }
@@ -164,7 +164,7 @@ pub struct VecSet<K> {
 impl<K: AsRef<[u8]>> VecSet<K> {
     pub fn new() -> Self {
         VecSet {
-            entries: [None, None, None],
+            entries: [None, None],
         }
     }
 
@@ -207,7 +207,14 @@ impl<K: AsRef<[u8]>> VecSet<K> {
 // so that a harness can run "the other thread" at exactly those points.
 // --------------------------------------------------------------------------
 
-pub static mut YIELD: Option<fn(u8)> = None;
+/// Installed by a harness.  A trait object rather than a function pointer: the model checker
+/// narrows a `dyn` call to the implementations of this trait, whereas a call through a plain
+/// function pointer fans out to every function of the same signature in the program.
+pub trait Yield: Sync {
+    fn at(&self, kind: u8);
+}
+
+pub static mut YIELD: Option<&'static dyn Yield> = None;
 
 /// Yield-point kinds passed to the installed function.
 pub const Y_BEFORE_LOAD: u8 = 0;
@@ -219,7 +226,7 @@ fn yield_point(kind: u8) {
     // single harness thread; the function pointer is only set by the harness
     let f = unsafe { YIELD };
     if let Some(f) = f {
-        f(kind);
+        f.at(kind);
     }
 }
 
@@ -481,13 +488,17 @@ impl<T> std::ops::Deref for Lazy<T> {
 // and may make the step fail.  Not installed: no effect.
 // --------------------------------------------------------------------------
 
-/// Returns `true` to make the step fail with a non-NotFound error.
-pub static mut ROTATE_STEP: Option<fn() -> bool> = None;
+pub trait RotateStep: Sync {
+    /// Returns `true` to make the step fail with a non-NotFound error.
+    fn step(&self) -> bool;
+}
+
+pub static mut ROTATE_STEP: Option<&'static dyn RotateStep> = None;
 
 pub fn rotate_step() -> std::io::Result<()> {
     let f = unsafe { ROTATE_STEP };
     match f {
-        Some(f) if f() => Err(std::io::Error::from(std::io::ErrorKind::PermissionDenied)),
+        Some(f) if f.step() => Err(std::io::Error::from(std::io::ErrorKind::PermissionDenied)),
         _ => Ok(()),
     }
 }
